@@ -146,12 +146,17 @@ type Contract struct {
 	Trusted  string
 	Inline   bool
 	Swar     []string // escape tables for which the SWAR mask lemma is proved and used
+	IsFuncType bool
+	Implements string // this function is a value of the named function type: verified against that contract too
+	Reads    []string
+	HasReads bool
 	AlsoTags []string // additional build-tag sets under which the function is verified as well (e.g. race)
 	NoMerge  bool // path-sensitive execution: states are not merged at joins (small functions only)
 	Safety   bool // generate run-time-check obligations (default true)
 	Pos      string
 	Lets     []*SpecMacro
 	Unfolds  []*Clause
+	CallAsserts map[string][]*Clause // obligations stated at a call site, over the caller's variables
 	PostAssumes map[string][]*Clause // assumptions in force right after a call returns
 	CallAssumes map[string][]*Clause // assumptions stated at a call site (listed in the evidence)
 	Ghosts   []*SpecMacro // ghost results: name := expression over the function's variables at its returns
@@ -372,6 +377,17 @@ func (cs *ContractSet) parseClause(body, pos, pkg string, cur **Contract) error 
 		}
 		cs.Axioms = append(cs.Axioms, &Clause{Kind: "axiom", Props: props, E: e, Text: r, Pos: pos})
 		return nil
+	case "functype":
+		// contract of every value of a named function type: functype Name(params)
+		name, params, err := parseHeadList(rest)
+		if err != nil {
+			return err
+		}
+		c := &Contract{Pkg: pkg, Loops: map[int]*LoopSpec{}, Safety: true, Pos: pos, Target: name, Key: "functype:" + pkg + "." + name, Params: params, IsFuncType: true}
+		cs.Funcs[c.Key] = c
+		cs.Order = append(cs.Order, c.Key)
+		*cur = c
+		return nil
 	case "func":
 		c := &Contract{Pkg: pkg, Loops: map[int]*LoopSpec{}, Safety: true, Pos: pos}
 		// "(*T).name(p1, p2) (r1, r2)"  or "name(p) (r)"
@@ -438,6 +454,22 @@ func (cs *ContractSet) parseClause(body, pos, pkg string, cur **Contract) error 
 			return err
 		}
 		c.Lets = append(c.Lets, &SpecMacro{Name: strings.TrimSpace(rest[:j]), Body: e})
+	case "callassert":
+		props, r := splitProps(rest)
+		j := strings.Index(r, ":")
+		if j < 0 {
+			return fmt.Errorf("callassert without ':'")
+		}
+		e, err := parseExpr(strings.TrimSpace(r[j+1:]), pos)
+		if err != nil {
+			return err
+		}
+		if c.CallAsserts == nil {
+			c.CallAsserts = map[string][]*Clause{}
+		}
+		name := strings.TrimSpace(r[:j])
+		c.CallAsserts[name] = append(c.CallAsserts[name], &Clause{Kind: "callassert", Props: props, E: e, Text: strings.TrimSpace(r[j+1:]), Pos: pos})
+		cs.NClause++
 	case "postassume":
 		j := strings.Index(rest, ":")
 		if j < 0 {
@@ -495,6 +527,15 @@ func (cs *ContractSet) parseClause(body, pos, pkg string, cur **Contract) error 
 		c.NoMerge = true
 	case "swar":
 		c.Swar = append(c.Swar, strings.Fields(rest)...)
+	case "implements":
+		c.Implements = strings.TrimSpace(rest)
+	case "reads":
+		c.HasReads = true
+		for _, a := range strings.Split(rest, ",") {
+			if a = strings.TrimSpace(a); a != "" && a != "nothing" {
+				c.Reads = append(c.Reads, a)
+			}
+		}
 	case "alsotags":
 		c.AlsoTags = append(c.AlsoTags, strings.Fields(rest)...)
 	case "nosafety":
